@@ -130,6 +130,7 @@ class ImplRunner:
         self.env = NASimEnv(scenario, fully_obs=bool(modes[0]), flat_actions=bool(modes[1]),
                             flat_obs=bool(modes[2]))
         self.pool = [self.env.current_state]
+        self.init_wire = state_wire(self.env.current_state.tensor, self.lay)
 
     def arg(self, x):
         tag = x[0]
